@@ -100,6 +100,7 @@ func runC05(rc *RunCtx) {
 	shortRate := t.Pick(3, 1)
 	devSeed := uint64(t.Choose(1 << 30))
 	asciiEvery := []int{0, 2, 5}[t.Choose(3)]
+	specialEvery := []int{0, 0, 3, 1}[t.Choose(4)] // registers holding all-zeros/all-ones/sign/NaN/Inf/CRLF/high-bit values
 
 	// fields may be added in two stages with requests built in between (a builder is a reusable, growing description)
 	// the builder's own defaults (server, unit) are for fields made through its helper methods; complete definitions
@@ -176,6 +177,7 @@ func runC05(rc *RunCtx) {
 	defer s.Activate()()
 	dn := NewDevNet(s, devSeed)
 	dn.ASCIIEvery = asciiEvery
+	dn.SpecialEvery = specialEvery
 	shorts := map[string]int{}
 	if shortRate == 1 {
 		dn.ShortAnswer = func(server string, unit byte, pdu []byte) int {
